@@ -230,6 +230,30 @@ theorem rust_export_leak_characterisation (args res : Tree) (g : Tag) (ρ : List
               · simp only [hi, ↓reduceIte] at h2
                 exact .inl h2
 
+/-- **… stated on types.**  If the result type of an export has no string, list or map below a
+fixed-length list (`cleanTy`), then for every argument tuple and every returned value the call is
+balanced. -/
+theorem rust_call_ledger_balanced_of_type (indirect : Bool) (ps : List Ty) (vs : List Val) (r : Ty) (v : Val)
+    (hclean : cleanTy false r = true) :
+    Balanced (exportTrace postReturn (argsTree indirect ps vs) (shape r v)) :=
+  rust_call_ledger_balanced_partial _ _ (shape_clean v r false hclean)
+
+/-- **The same defect on the model of `abi.rs` itself** (`Gen.postReturn` run in the reference
+machine, the function whose output is compared with the real generator and whose frees are compared
+address by address with the real `cabi_post_*`): for `f: func() -> list<string, 2>` returning
+`["a","b"]` (wasm32 layout, return area at 16) the post-return frees nothing while the lowering
+allocated two blocks; for `list<string>` it frees all three. -/
+theorem post_return_model_leaks_below_fixed_list :
+    let f : Func := ⟨false, [], some (.flist .string 2)⟩
+    let m := (Spec.store 4 (.flist .string 2) (.list [.str [97], .str [98]]) 16 { mem := [], heap := { next := 32 } }).mem
+    RustProfile.postFrees 4 f 16 m = some [] ∧
+    RustProfile.resultBlocks 4 (.flist .string 2) 16 m = [(32, 1, 1), (33, 1, 1)] := by decide
+
+theorem post_return_model_frees_list_of_strings :
+    let g : Func := ⟨false, [], some (.list .string)⟩
+    let m := (Spec.store 4 (.list .string) (.list [.str [97], .str [98]]) 16 { mem := [], heap := { next := 32 } }).mem
+    RustProfile.postFrees 4 g 16 m = some [(48, 1, 1), (49, 1, 1), (32, 16, 4)] := by decide
+
 /-! ## non-vacuity -/
 
 /-- `export f: func(a: list<string>, b: string) -> list<list<u8>>`: argument list lifted element-wise
